@@ -88,6 +88,9 @@ pub fn rand_project(r: &mut Rng, round_trip_safe: bool) -> Project {
     let (mut into, mut from) = (Vec::new(), Vec::new());
     if r.chance(1, 2) {
         if r.chance(2, 3) { into = vec!["Ж > ʒ".to_string(), "ш > ʃ:[+long]".to_string(), "ДЖ > d͡ʒ".to_string()][..r.range(1, 3)].to_vec(); }
+        // a line that begins with a named escape (as in the shipped pie.alias), anywhere in the section; and words that use the aliases
+        if !into.is_empty() && r.chance(1, 2) { let k = r.below(into.len() + 1); into.insert(k, "@{acute} > [+stress]".to_string()); }
+        if !into.is_empty() { for w in words.iter_mut() { if !w.0.is_empty() && r.chance(1, 6) { w.0 = format!("{}Жa", w.0); } } }
         if r.chance(2, 3) { from = vec!["ʃ > sh".to_string(), "V:[+long] > +@{macron}".to_string(), "$ > *".to_string(), "ŋ > ng".to_string()][..r.range(1, 4)].to_vec(); }
     }
     Project { groups, words, into, from }
